@@ -7,6 +7,8 @@ use crate::ev::PropRun;
 
 pub mod util;
 pub mod c19;
+pub mod ivp;
+pub mod c03;
 
 pub struct Tier {
     pub thorough: bool,
@@ -25,7 +27,7 @@ impl Tier {
             c.wall_budget_s = 3600.0;
             c.validate_paths = 8;
         } else {
-            c.query_timeout_s = 20.0;
+            c.query_timeout_s = 10.0;
             c.max_paths = 3000;
             c.max_decisions = 600;
             c.wall_budget_s = 240.0;
@@ -60,6 +62,7 @@ pub fn run_property(id: &str, t: &Tier, replay: Option<(String, std::collections
     pr.assume("solver: z3 4.8.12 is trusted for unsat verdicts; every sat verdict must reproduce on the native f64 build before it is reported");
     match id {
         "C19" => c19::run(&mut pr, t),
+        "C03" => c03::run(&mut pr, t),
         _ => return None,
     }
     let _ = explore;
